@@ -1,6 +1,7 @@
 import PyImpSpec.Gen.Elements
 import PyImpSpec.Cdc.Model
 import PyImpSpec.DataSet.Model
+import PyImpSpec.Param.Model
 
 /-! Line-protocol driver: one request per line (`<model> <op> <args…>`), one canonical reply per line.
 Run with `lake env lean --run Driver/Main.lean`.  The harness sends the same inputs to the real
@@ -29,6 +30,37 @@ def cdcReply (fl : String) (input : String) : String :=
   | .ok c => "ok " ++ c.canon Gen.elemTable
   | .error e => "err " ++ e.name
 
+
+/-! ### element parameter API -/
+
+def parseVal (s : String) : Val :=
+  if s = "inf" then .pinf else if s = "-inf" then .ninf else if s = "nan" then .nan
+  else match s.splitOn "/" with
+    | [n, d] => .num (mkRat n.toInt! d.toNat!)
+    | [n] => .num (mkRat n.toInt! 1)
+    | _ => .nan
+
+def parseArg (s : String) : Param.Arg :=
+  match s.splitOn ":" with
+  | ["n", v] => .num (parseVal v)
+  | ["b", v] => .bool (v = "1")
+  | ["x", e] => .bad e
+  | _ => .bad "TypeError"
+
+def parsePairs (s : String) : Param.Pairs :=
+  if s = "-" then [] else (s.splitOn ";").filterMap fun p =>
+    match p.splitOn "=" with
+    | [k, a] => some (decodeHex k, parseArg a)
+    | _ => none
+
+def showEl (e : Param.El) : String :=
+  ",".intercalate (e.ps.map fun q => s!"{q.key}={q.value.show}/{q.lo.show}/{q.hi.show}/{if q.fixed then "F" else "v"}") ++ ":" ++ e.label
+
+def classDefaults (sym : String) : List PV :=
+  match Gen.elemTable.find? (·.sym = sym) with
+  | some d => d.params.map fun pd => { key := pd.key, value := pd.value, lo := pd.lo, hi := pd.hi, fixed := pd.fixed }
+  | none => []
+
 /-! ### DataSet -/
 
 def ints (s : String) : List Int :=
@@ -49,6 +81,7 @@ def obs (d : DataSet.DS) : String :=
 
 structure DState where
   ds : List (Nat × DataSet.DS) := []
+  els : List (Nat × String × Param.El) := []
 
 def DState.get (st : DState) (k : Nat) : Option DataSet.DS := (st.ds.find? (·.1 = k)).map (·.2)
 def DState.put (st : DState) (k : Nat) (d : DataSet.DS) : DState :=
@@ -102,11 +135,67 @@ def dsStep (st : DState) (args : List String) : DState × String :=
     | some d => (st, "ok " ++ obs d)
   | _ => (st, "bad-op")
 
+
+def DState.getEl (st : DState) (k : Nat) : Option (String × Param.El) := (st.els.find? (·.1 = k)).map (·.2)
+def DState.putEl (st : DState) (k : Nat) (sym : String) (e : Param.El) : DState :=
+  { st with els := (k, sym, e) :: st.els.filter (·.1 ≠ k) }
+
+def paReply (r : Param.El × Option String) : String :=
+  match r.2 with
+  | none => "ok " ++ showEl r.1
+  | some x => s!"err {x} {showEl r.1}"
+
+def paStep (st : DState) (args : List String) : DState × String :=
+  match args with
+  | ["reset"] => ({ st with els := [] }, "ok")
+  | ["init", k, sym] =>
+    let e : Param.El := { ps := classDefaults sym, label := "" }
+    (st.putEl k.toNat! sym e, "ok " ++ showEl e)
+  | [op, k, kw, pos, odd] =>
+    match st.getEl k.toNat! with
+    | none => (st, "err no-slot")
+    | some (sym, e) =>
+      let f := match op with
+        | "sv" => Param.setValues | "sl" => Param.setLowerLimits | "su" => Param.setUpperLimits | _ => Param.setFixed
+      let r := f e (parsePairs kw) (parsePairs pos) (odd = "1")
+      (st.putEl k.toNat! sym r.1, paReply r)
+  | ["label", k, l] =>
+    match st.getEl k.toNat! with
+    | none => (st, "err no-slot")
+    | some (sym, e) =>
+      let r := Param.setLabelOp e (if l = "NONE" then none else some (decodeHex l))
+      (st.putEl k.toNat! sym r.1, paReply r)
+  | ["resetp", k, keys] =>
+    match st.getEl k.toNat! with
+    | none => (st, "err no-slot")
+    | some (sym, e) =>
+      let r := Param.resetParameters (classDefaults sym) e (if keys = "-" then [] else (keys.splitOn ",").map decodeHex)
+      (st.putEl k.toNat! sym r.1, paReply r)
+  | ["reset1", k, key] =>
+    match st.getEl k.toNat! with
+    | none => (st, "err no-slot")
+    | some (sym, e) =>
+      let r := Param.resetParameter (classDefaults sym) e (decodeHex key)
+      (st.putEl k.toNat! sym r.1, paReply r)
+  | ["copy", k, n, kind] =>
+    match st.getEl k.toNat! with
+    | none => (st, "err no-slot")
+    | some (sym, e) =>
+      match (if kind = "c" then Param.copyContainer else Param.copyElement) (classDefaults sym) e with
+      | .ok e' => (st.putEl n.toNat! sym e', "ok " ++ showEl e')
+      | .error x => (st, "err " ++ x)
+  | ["obs", k] =>
+    match st.getEl k.toNat! with
+    | none => (st, "err no-slot")
+    | some (_, e) => (st, "ok " ++ showEl e)
+  | _ => (st, "bad-op")
+
 def step (st : DState) (line : String) : DState × String :=
   match line.splitOn " " with
   | ["cdc", fl, hex] => (st, cdcReply fl (decodeHex hex))
   | ["cdc", fl] => (st, cdcReply fl "")
   | "ds" :: args => dsStep st args
+  | "pa" :: args => paStep st args
   | _ => (st, "bad-op")
 
 partial def loop (h : IO.FS.Stream) (st : DState) : IO Unit := do
